@@ -77,13 +77,18 @@ func (t *brokerPublishTransactionBase) ProceedSN(newState transactionState, snPk
 }
 
 func (t *brokerPublishTransactionBase) ProceedMQTT(newState transactionState, mqPkt mqPkts.ControlPacket) error {
+	if newState == transactionDone {
+		// The transaction must be finished (and removed from the transaction
+		// store) before the broker gets its last packet: the broker may reuse
+		// the MsgID as soon as it receives it and the new transaction with
+		// the same MsgID must not be removed instead.
+		t.Success()
+		return t.handler.mqttSend(mqPkt)
+	}
 	t.Proceed(newState, mqPkt)
 	if err := t.handler.mqttSend(mqPkt); err != nil {
 		t.Fail(err)
 		return err
-	}
-	if newState == transactionDone {
-		t.Success()
 	}
 	return nil
 }
